@@ -398,6 +398,9 @@ def run_multibinary(ctx, m, space, k):
         ov = base.astype(np.int64).ravel().copy()
         ov[i] = 2**32 + int(ov[i])
         judge_contains(ctx, m, space, ov.reshape(shape), "int64-overflow", "np")
+        for vv in (2**32 - 1, 2**31, 2**31 + 1):
+            for rep, x in reps(w(vv, np.uint32), py_ok=False):
+                judge_contains(ctx, m, space, x, "too-large", rep + "-uint32")
     v = gen_member(rng, m).astype(np.int8)
     for wv in wrong_shapes(rng, v):
         for rep, x in reps(wv, py_ok=False):
@@ -450,6 +453,10 @@ def run_multidiscrete(ctx, m, space, k):
         for rep, x in reps(w(np.nan, np.float32), py_ok=False):
             judge_contains(ctx, m, space, x, "nan", rep)
         judge_contains(ctx, m, space, w(2**32 + int(base[i])), "int64-overflow", "np")
+        # unsigned values above the int32 range: reinterpreted as int32 they would be small negative / member indices
+        for v in (2**32 - 1, 2**32 - int(nv[i]), 2**31, 2**31 + int(base[i])):
+            for rep, x in reps(w(v, np.uint32), py_ok=False):
+                judge_contains(ctx, m, space, x, "too-large", rep + "-uint32")
     if L >= 2 and len(set(m["nvec"])) > 1:
         # a value legal in another dimension, illegal in this one
         j, i = int(np.argmax(nv)), int(np.argmin(nv))
